@@ -290,8 +290,8 @@ func (s *shaper) OperandsInClosure(name string) []string {
 		return nil
 	}
 	var res []string
-	depth := 0        // brace depth inside emitted text
-	var funcAt []int  // brace depths at which an emitted func literal body was opened
+	depth := 0       // brace depth inside emitted text
+	var funcAt []int // brace depths at which an emitted func literal body was opened
 	pendingFunc := false
 	for _, pc := range s.lin {
 		if pc.term == nil {
